@@ -1085,6 +1085,8 @@ class Interp(object):
         def conc(v):
             if isinstance(v, (Sym, SList, SDict, SObj, SArr, IFunc, IBound, Summary)):
                 return False
+            if type(v).__name__ in ("SMat", "SBuf") and (type(v).__module__ or "").split(".")[0] == "vp":
+                return False            # modelled arrays: not arguments for native code
             if isinstance(v, (tuple, list)):
                 return all(conc(x) for x in v)
             return True
